@@ -618,6 +618,8 @@ class Interp:
         return VOpq("?sub", src(n))
 
     def _join_all(self, vals):
+        if len(vals) > 8 and all(isinstance(v, VStr) for v in vals):
+            return VStr(alt(*[v.sh for v in vals]))
         r = vals[0]
         for x in vals[1:]:
             r = self.join_val(r, x)
